@@ -25,6 +25,7 @@ import bisect
 import math
 import random as _random
 import types
+import zlib
 from fractions import Fraction
 
 import numpy as np
@@ -103,8 +104,17 @@ def apply_scenarios(scen, parset, fw, settings):
     if not scen:
         return parset
     stub = types.SimpleNamespace(settings=settings, framework=fw)
-    for s in scen:
-        sc_ = at.ParameterScenario(name="sc", scenario_values={s["par"]: {s["pop"]: {"t": list(s["t"]), "y": list(s["y"])}}}, interpolation=s.get("interp", "linear"))
+    done = set()
+    for k, s in enumerate(scen):
+        if k in done:
+            continue
+        # entries that carry the same "group" belong to ONE ParameterScenario (one scenario overwriting a parameter in several populations / several parameters)
+        members = [j for j, s2 in enumerate(scen) if j >= k and s.get("group") is not None and s2.get("group") == s.get("group")] or [k]
+        done.update(members)
+        values = {}
+        for j in members:
+            values.setdefault(scen[j]["par"], {})[scen[j]["pop"]] = {"t": list(scen[j]["t"]), "y": list(scen[j]["y"])}
+        sc_ = at.ParameterScenario(name="sc", scenario_values=values, interpolation=s.get("interp", "linear"))
         parset = sc_.get_parset(parset, stub)
     return parset
 
@@ -1161,6 +1171,10 @@ def gen_spec(r, regime, prop, want_progs=True):
             if r.random() < 0.5:
                 yf[p["name"]]["_meta"] = r.choice([1.0, 0.9, 2.0, 1.1])
     spec["y_factors"] = yf
+    if spec.get("transfers") and zlib.crc32(repr(spec["transfers"]).encode()) % 2 == 0:
+        # calibration factors on transfers (decided from the spec, so the random stream of the rest is unchanged)
+        spec["transfer_y_factors"] = {t["name"]: dict({"_meta": [0.9, 2.0, 1.1, 0.5][k % 4]}, **{f"{a}>{b}": [1.0, 0.5, 1.3][(i + k) % 3] for i, (a, b, _v) in enumerate(t["pairs"])})
+                                      for k, t in enumerate(spec["transfers"], start=zlib.crc32(repr(spec["settings"]).encode()) % 4)}
     # --- programs
     if want_progs:
         cand = [p for p in pars if not p["timed"] and p["name"] not in ("xo0", "xo1", "xv0", "xa0") and not (p.get("function") or "").startswith(("SRC_", "TGT_"))
@@ -1366,6 +1380,26 @@ def directed_specs(r, prop):
                 "interactions": [{"name": "wi0", "pairs": [["pa", "pa", 1.0], ["pa", "pb", 0.5], ["pb", "pa", 0.2], ["pb", "pb", 1.0]]}]}
         spec["pars"][0]["value"] = {"pa": 0.3, "pb": 0.6}
         out.append(("directed: population aggregation weighted by a function parameter (zw0 = q0*c0/(c0+c1+1))", spec))
+    if prop == "C06":
+        # (g) ONE parameter scenario that overwrites a function parameter in two populations: the function is suspended in each of them from its first overwrite year on
+        pops2 = ["pa", "pb"]
+        Y = start + r.choice([2, 1, 3]) * dt
+        spec = {"comps": [{"name": "c0", "kind": "normal", "databook": True, "init": {"pa": 100.0, "pb": 60.0}}, {"name": "c1", "kind": "normal", "databook": True, "init": {"pa": 10.0, "pb": 5.0}}],
+                "characs": [{"name": "alive", "components": ["c0", "c1"], "denominator": None, "databook": False}],
+                "pars": [_P("xd0", "probability", 0.4, pops2), _P("ra0", "rate", None, pops2, function=r.choice(["0.5*xd0", "0.3*c1/(alive+1)"]), databook=True)],
+                "transitions": [["c0", "c1", "ra0"]], "pops": pops2, "transfers": [], "settings": [start, start + 6 * dt, dt],
+                "scen": [{"par": "ra0", "pop": p_, "t": [Y], "y": [v_], "interp": "previous", "group": 0} for p_, v_ in (("pa", 0.25), ("pb", 0.05))]}
+        for p_ in spec["pars"]:
+            if p_["name"] == "ra0":
+                p_["value"] = {}
+        out.append((f"directed: one parameter scenario from {Y} on the function parameter ra0 in BOTH populations", spec))
+        # (h) an output-only parameter that reads the flow along a link between two compartments of one duration group (a TimedLink)
+        spec = {"comps": [{"name": "c0", "kind": "normal", "databook": True, "init": {"pa": 100.0}}, {"name": "t00", "kind": "normal", "databook": True, "init": {"pa": 30.0}},
+                          {"name": "t01", "kind": "normal", "databook": True, "init": {"pa": 5.0}}, {"name": "k0", "kind": "sink"}],
+                "characs": [], "pars": [_P("ra0", "rate", 0.3, pops), _P("ra1", "rate", r.choice([0.4, 0.8]), pops), _P("du0", "duration", r.choice([2, 3]) * dt, pops, timed=True),
+                                        _P("xo0", "number", None, pops, function="t00:t01", databook=False), _P("xo1", "number", None, pops, function="ra1:flow + c0:t00", databook=False)],
+                "transitions": [["c0", "t00", "ra0"], ["t00", "t01", "ra1"], ["t00", "k0", "du0"], ["t01", "k0", "du0"]], "pops": pops, "transfers": [], "settings": [start, start + 6 * dt, dt]}
+        out.append(("directed: output-only parameters reading the flow along a TimedLink (t00:t01 inside one duration group)", spec))
     if prop in ("C06", "C13"):
         # (d) a dependency chain two deep below a program target, none of it depending on the state: tp0 (targeted) -> xb0 = 2*tp0 (no transition) -> ra0 = xb0 + 0.01 (transition)
         # (e) a program outcome on a function parameter that drives nothing (pure output), and an output that depends on it
